@@ -71,7 +71,7 @@ class Check:
         # 1. harness (needed for the generated files)
         comps = sp.get("comps", [])
         need_plain = bool(sp.get("gens")) or any(not c.get("e2e") for c in comps)
-        need_e2e = any(c.get("e2e") for c in comps)
+        need_e2e = any(c.get("e2e") for c in comps) or bool(sp.get("gens_e2e"))
         self.bins = {}
         first = (comps[0]["comp"] if comps else None) or (sp.get("gens") or [None])[0]
         for e2e in ([False] if need_plain else []) + ([True] if need_e2e else []):
@@ -84,10 +84,10 @@ class Check:
         self.rundir = os.path.join(core.WORK, "run_%s_%d" % (self.pid, os.getpid()))
         os.makedirs(self.rundir, exist_ok=True)
         gdir = os.path.join(self.rundir, "gen")
-        for g in sp.get("gens", []):
-            b = self.bins.get(False)
+        for g, e2e in [(g, False) for g in sp.get("gens", [])] + [(g, True) for g in sp.get("gens_e2e", [])]:
+            b = self.bins.get(e2e)
             if b is None:
-                break
+                continue
             rc, log = core.harness(b, g, gdir, seed=self.seed, n=0, tier=self.tier)
             if rc != 0:
                 self.broken.append({"kind": "broken-tie", "name": "generator " + g, "detail": log[-4000:]})
